@@ -86,6 +86,8 @@ def calls(N, cfg):
 # wide cubes: total cell counts / strides crossing the 255/256 and 65535/65536 coordinate-width boundaries of the array cube
 WIDE = [
     ((4, 100), [[0, 3], [0, 99]]),
+    ((2, 100), [[0, 1], [0, 99]]),          # 200 cells: upper half of the uint8 range (an int8 dimension is as wide as the coordinate type)
+    ((2, 20000), [[0, 1], [0, 19999]]),     # 40000 cells: upper half of the uint16 range
     ((3, 86), [[0, 2], [0, 85]]),
     ((2, 128), [[0, 1], [0, 127]]),
     ((257,), [[0, 255, 256]]),
